@@ -65,6 +65,15 @@ def run_jobs(jobs, z3_ms, use_cvc5, procs, stop_at_first_failure=False):
         for (ri, oi), out in zip(todo, outs):
             o = results[ri]["obligations"][oi]
             o.update(status=out["status"], backend=out["backend"], time=round(out["time"], 4), detail=out["detail"][:3000])
+        # second chance for the undecided ones: few processes (an idle machine), three times the budget, so that a verdict
+        # reached on an idle machine is also reached when all cores were busy during the first pass
+        again = [(ri, oi) for ri, oi in todo if results[ri]["obligations"][oi]["status"] == "unknown"]
+        if again:
+            with ctx.Pool(min(4, len(again))) as pool:
+                outs = pool.map(_solve, [(results[ri]["obligations"][oi]["smt2"], z3_ms * 3, use_cvc5) for ri, oi in again], chunksize=1)
+            for (ri, oi), out in zip(again, outs):
+                o = results[ri]["obligations"][oi]
+                o.update(status=out["status"], backend=out["backend"] + " (retry)", time=round(o["time"] + out["time"], 4), detail=out["detail"][:3000])
     for r in results:
         for o in r["obligations"]:
             if o["status"] == "proved":
